@@ -56,6 +56,9 @@ def sig_of(rust):
         # the result borrows from a PARAMETER (lifetime 'a names an input): for the macro that is a reference the mock cannot lend from
         # itself - output.rs determine_reference_ownership classifies it like `&'static` (the configured value must be 'static)
         return f"fn f<'a>(&self, p: &'a C) -> {rust}"
+    if rust.endswith(TYPED):
+        # the receiver written as a typed pattern: still `&self`, the elided borrows of the result are borrows of self
+        return f"fn f(self: &Self) -> {rust}"
     if "&'t " in rust:
         # the receiver's lifetime is ALSO written on a later parameter: still a borrow of self (the receiver is the first parameter with it)
         return f"fn f<'t>(&'t self, _q: &'t C) -> {rust}"
@@ -63,6 +66,18 @@ def sig_of(rust):
         # the receiver's lifetime is declared by the TRAIT (`trait T<'r>`), not by the method
         return f"fn f(&'r self) -> {rust}"
     return f"fn f<'s>(&'s self) -> {rust}" if "&'s " in rust else f"fn f(&self) -> {rust}"
+
+
+TYPED = " /* typed receiver */"
+
+
+def typed_variants(infos, limit):
+    """for accepted types with elided borrows: the same type on a method whose receiver is spelled `self: &Self`"""
+    out = []
+    for i in infos:
+        if i["accept"] and not i.get("named") and not i.get("param") and not i.get("lt") and has_elided_ref(i["ty"]) and len(out) < limit:
+            out.append(dict(i, rust=i["rust"] + TYPED, typed=True))
+    return out
 
 
 def trait_generics(rust):
@@ -615,7 +630,7 @@ def run(tier, seed):
     types = gen_types(rng, tier)
     infos = analyse_types(types)
     infos += named_variants(infos, 40 if tier == "quick" else 400) + param_variants(infos, 25 if tier == "quick" else 250) \
-        + lt_variants(infos, 25 if tier == "quick" else 250)
+        + lt_variants(infos, 25 if tier == "quick" else 250) + typed_variants(infos, 20 if tier == "quick" else 200)
     binary, acc, mism = build_accepted(infos)
     # acceptance boundary: what the model rejects must not compile; no multi-use path => each_call().returns must not compile
     rej = [i for i in infos if not i["accept"]]
